@@ -76,15 +76,15 @@ def compute (asset : String) (acctName : Nat → String) (period : Int) (allowNe
 /-! ### rp2_full_report as abstract rows -/
 
 inductive RRow
-  | ioIn (asset : String) (row : Nat) (tx : Int) (sold : Option Rat) (amt run : Rat)
-  | ioOut (asset : String) (row : Nat) (tx : Int) (amt fee run feeRun : Rat)
-  | ioIntra (asset : String) (row : Nat) (tx : Int) (sent recv fee feeRun : Rat)
+  | ioIn (asset : String) (row : Nat) (tx : Int) (sold : Option Rat) (amt run : Rat) (fiat : List Rat)      -- fiat: spot price, fee, in (no fee), in (with fee)
+  | ioOut (asset : String) (row : Nat) (tx : Int) (amt fee run feeRun : Rat) (fiat : List Rat)              -- fiat: spot price, out (no fee), fee
+  | ioIntra (asset : String) (row : Nat) (tx : Int) (sent recv fee feeRun : Rat) (fiat : List Rat)         -- fiat: spot price, fee, taxable (1/0)
   | taxY (asset : String) (row : Nat) (year : Int) (typ : String) (long : Bool) (gain amt fiat cost : Rat)
   | taxB (asset : String) (row : Nat) (acct : Nat) (acq sent recv fin : Rat)
   | taxT (asset : String) (row : Nat) (holder : String) (total : Rat)
   | taxP (asset : String) (row : Nat) (price : Rat)
   | taxD (asset : String) (row : Nat) (ev : Int) (lot : Option Int) (amt run gain : Rat) (long : Bool)
-        (evLink lotLink : Option Nat) (evK evN : Nat) (lotK lotN : Option Nat)
+        (evLink lotLink : Option Nat) (evK evN : Nat) (lotK lotN : Option Nat) (fiat : List Rat)      -- fiat: proceeds, cost basis
   | summ (row : Nat) (asset : String) (year : Int) (typ : String) (long : Bool) (link : Option Nat)
 
 structure GenState where
@@ -141,14 +141,16 @@ def layoutAsset (clearPerAsset : Bool) (holderOf : Nat → String) (period : Int
   let inRows := (List.range nIn).zip c.ins |>.map fun (k, t) =>
     let s := (lookupI t.row c.sold).getD 0
     let soldCell : Option Rat := if eq13 s 0 && k > 0 then none else some s
-    (RRow.ioIn c.asset (3 + k + 1) t.row soldCell (ofUnits t.amount) ((lookupI t.row c.inRun).getD 0), (t.row, 3 + k + 1))
+    (RRow.ioIn c.asset (3 + k + 1) t.row soldCell (ofUnits t.amount) ((lookupI t.row c.inRun).getD 0)
+      [ofUnits t.price, t.fiatFee, t.fiatNoFee, t.fiatWithFee], (t.row, 3 + k + 1))
   let outStart := 8 + nIn
   let outRows := (List.range nOut).zip c.outs |>.map fun (k, t) =>
     let r := (lookupI t.row c.outRun).getD (0, 0)
-    (RRow.ioOut c.asset (outStart + k + 1) t.row (ofUnits t.outNoFee) (ofUnits t.fee) r.1 r.2, (t.row, outStart + k + 1))
+    (RRow.ioOut c.asset (outStart + k + 1) t.row (ofUnits t.outNoFee) (ofUnits t.fee) r.1 r.2 [ofUnits t.price, t.fiatNoFee, t.fiatFee], (t.row, outStart + k + 1))
   let xStart := 13 + nIn + nOut
   let xRows := (List.range c.intras.length).zip c.intras |>.map fun (k, t) =>
-    (RRow.ioIntra c.asset (xStart + k + 1) t.row (ofUnits t.sent) (ofUnits t.recv) (ofUnits (t.sent - t.recv)) ((lookupI t.row c.intraRun).getD 0), (t.row, xStart + k + 1))
+    (RRow.ioIntra c.asset (xStart + k + 1) t.row (ofUnits t.sent) (ofUnits t.recv) (ofUnits (t.sent - t.recv)) ((lookupI t.row c.intraRun).getD 0)
+      [ofUnits t.price, t.fiatFee, if gt13 t.fiatFee 0 then 1 else 0], (t.row, xStart + k + 1))
   let txRow := txRowFrom txRow0 c
   -- Tax sheet
   let nY := c.yearly.length
@@ -169,6 +171,7 @@ def layoutAsset (clearPerAsset : Bool) (holderOf : Nat → String) (period : Int
   let dRows := ((List.range c.fracs.length).zip shownFr).map fun (k, (n, run)) =>
     RRow.taxD c.asset (dStart + k + 1) n.f.ev.row (n.f.lot.map (·.row)) (ofUnits n.f.amt) run n.f.gain (n.f.isLong period)
       (lookupI n.f.ev.row txRow) (n.f.lot.bind (fun l => lookupI l.row txRow)) (n.evK + 1) n.evN (n.lotK.map (· + 1)) n.lotN
+      [n.f.proceeds, n.f.cost]
   let yearRow := yearRowsFrom c.asset dStart 0 0 st.yearRow (shownFr.map (·.1.f.ev.ts.year))
   -- Summary sheet: one line per yearly line, linked to the first detail row of that year when there is one
   let linkOfYear (y : Int) : Option Nat := aget yearRow (c.asset, y)
